@@ -328,6 +328,9 @@ pub fn gen(rng: &mut Rng, tier: &str, dist: &mut Dist) -> Vec<String> {
     if thorough {
         adicts.push((1 << 26) + 12345);
     }
+    // just above 64 MiB the 4-byte hash table stops doubling with the dictionary (only address space: the
+    // tables are zeroed pages that are never touched)
+    adicts.push((1 << 26) + 1);
     adicts.sort();
     adicts.dedup();
     let lclp = [(3u32, 0u32), (0, 0), (4, 0), (0, 4), (2, 2), (8, 4), (8, 0), (5, 3)];
